@@ -105,6 +105,14 @@ SPECS = [
          raises={'*': {'ensures': ["raised('e9') or raised('e10') or loop_failed() or "
                                    "(evals(9) == 1 and evals(10) == 1)"]}},
          serves=PROP + ["C04", "C07"], no_fresh=True),
+    dict(id='S-Literal',
+         # expressions that are literal displays of mutable objects
+         text='A<p tal:define="a []; b {1: 2}" tal:attributes="k {3}" tal:content="[e1]">x</p>B',
+         own_names=['a', 'b'],
+         loops={},
+         ensures=["evals(1) == 1", "visible('a') is visible0('a')", "visible('b') is visible0('b')"],
+         raises={'*': {'ensures': ["True"]}},
+         serves=PROP + ["C04", "C14"], no_fresh=True, no_token_posts=True),
     dict(id='S-Combined',
          # "definitions first, then the guards, then content or replacement, then tag omission
          # and attributes" -- all statements on ONE element (the order they are written in is
